@@ -1781,6 +1781,13 @@ class KmipEngine(object):
                     )
                 )
 
+            if current_attribute is not None:
+                if current_attribute.tag != new_attribute.tag:
+                    raise exceptions.InvalidField(
+                        "The current attribute and the new attribute must be "
+                        "instances of the same attribute."
+                    )
+
             is_multivalued = self._attribute_policy.is_attribute_multivalued(
                 attribute_name
             )
